@@ -590,6 +590,8 @@ func (self *ReplicationClient) sendSyncCommand() (*protobuf.SyncResponse, error)
 		self.manager.slock.logger.Infof("Replication client send start sync by aofId %s", aofId)
 	} else {
 		aofId = ""
+		self.aofLock = nil
+		self.recvedFiles = false
 		self.manager.slock.logger.Infof("Replication client send start sync")
 	}
 
@@ -685,10 +687,7 @@ func (self *ReplicationClient) InitSync() error {
 		return err
 	}
 
-	self.currentAofId[0], self.currentAofId[1], self.currentAofId[2], self.currentAofId[3], self.currentAofId[4], self.currentAofId[5], self.currentAofId[6], self.currentAofId[7],
-		self.currentAofId[8], self.currentAofId[9], self.currentAofId[10], self.currentAofId[11], self.currentAofId[12], self.currentAofId[13], self.currentAofId[14], self.currentAofId[15] = aofId[0], aofId[1], aofId[2], aofId[3], aofId[4], aofId[5], aofId[6], aofId[7],
-		aofId[8], aofId[9], aofId[10], aofId[11], aofId[12], aofId[13], aofId[14], aofId[15]
-	self.manager.slock.logger.Infof("Replication client start recv files util aofId %s", FormatAofId(self.currentAofId))
+	self.manager.slock.logger.Infof("Replication client start recv files util aofId %s", FormatAofId(aofId))
 	return self.recvFiles()
 }
 
